@@ -53,6 +53,8 @@ def cells(tier):
     out += make_cells(PID, 'exc', tier, N=3, thin=plain2, extra={'prefail': True}, suffix='after-refused-messages')
     # ... and when every story was re-sent by a roStorySend before
     out += make_cells(PID, 'exc', tier, N=3, thin=plain2, extra={'presend': True}, suffix='after-roStorySend-of-every-story')
+    # a container that holds the same ID twice (first and last element)
+    out += make_cells(PID, 'exc', tier, N=3, thin=plain2, extra={'dup_state': [0, 2]}, suffix='repeated-id-in-container')
     # the smallest shapes: one story / item, and every story / item of the container named by the message
     def small(n):
         def f(op, story_k, tk, sk, nk):
